@@ -167,6 +167,20 @@ fn link_split(c: &Case, size: u32) -> bool {
     c.link.max_message_size.map(|m| size as u64 + 64 > m).unwrap_or(false)
 }
 
+/// The open finding needs the link->session channel of the sending side to be full (or the task's cooperative
+/// budget to run out) in the middle of a delivery: then `send()` is Pending between two transfers of one delivery.
+/// With a roomy channel (>= 1024 slots), a delivery of at most 64 transfers and the send future polled
+/// `unconstrained`, the unchanged link layer queues all transfers of a delivery within one poll, so cancelling such
+/// a send is inside the property again and is generated.
+fn roomy(c: &Case, size: u32) -> bool {
+    let snd_side = if c.link.dir == 0 { 0 } else { 1 };
+    c.duo.sess_buf[snd_side] >= 1024 && c.link.max_message_size.map(|m| (size as u64 + 64) / m.max(1) + 1 <= 64).unwrap_or(true)
+}
+
+fn carved_split(c: &Case, size: u32) -> bool {
+    link_split(c, size) && !roomy(c, size)
+}
+
 async fn sender_app(mut s: Sender, c: Case, carve_partial: bool) -> Result<(Sender, SendReport), String> {
     let mut rep = SendReport { completed: vec![], cancelled: vec![], cancels_pending: 0, cancels_unpolled: 0 };
     let settled = match c.link.snd_settle {
@@ -175,9 +189,14 @@ async fn sender_app(mut s: Sender, c: Case, carve_partial: bool) -> Result<(Send
     };
     for (i, sz) in c.sizes.iter().enumerate() {
         let b = c.send_budgets[i % c.send_budgets.len()];
-        let budget = if b == 255 || (carve_partial && link_split(&c, *sz)) { u32::MAX } else { b as u32 };
+        let budget = if b == 255 || (carve_partial && carved_split(&c, *sz)) { u32::MAX } else { b as u32 };
         let sendable: Sendable<Body<Value>> = Sendable::builder().message(make_msg(i as u32, *sz)).settled(settled).build();
-        let (r, polls) = CancelAfter::new(s.send(sendable), budget).await;
+        let (r, polls) = if link_split(&c, *sz) && roomy(&c, *sz) {
+            // no forced yields from tokio's cooperative budget inside the hand-over of one delivery
+            CancelAfter::new(tokio::task::unconstrained(s.send(sendable)), budget).await
+        } else {
+            CancelAfter::new(s.send(sendable), budget).await
+        };
         match r {
             Some(Ok(o)) => {
                 if !matches!(o, Outcome::Accepted(_)) {
@@ -364,7 +383,7 @@ fn case(ctx: &ShardCtx, c: &Case, obs: &mut Obs) -> Result<(), String> {
     let open = ctx.open_findings.clone();
     let c = &carve(c, &open, &mut obs.excluded);
     let carve_partial = open.iter().any(|o| o == "KF-send-cancel-partial-delivery");
-    if carve_partial && c.sizes.iter().enumerate().any(|(i, sz)| link_split(c, *sz) && c.send_budgets[i % c.send_budgets.len()] != 255) {
+    if carve_partial && c.sizes.iter().enumerate().any(|(i, sz)| carved_split(c, *sz) && c.send_budgets[i % c.send_budgets.len()] != 255) {
         obs.excluded.push("KF-send-cancel-partial-delivery".into());
     }
     match guarded(|| run_case(c, carve_partial)) {
@@ -392,7 +411,10 @@ fn case(ctx: &ShardCtx, c: &Case, obs: &mut Obs) -> Result<(), String> {
         }
         Ok(Err(e)) => {
             let rcv_side = if c.link.dir == 0 { 1 } else { 0 };
-            obs.signature = Some(if e.starts_with("HANG") { if c.link.auto_accept && c.duo.sess_buf[rcv_side] < 32 { "hang:auto-accept-small-rcv-buffer".into() } else { "hang".into() } } else if e.contains("recv failed") { format!("recv-error:{}", e.rsplit(": ").next().unwrap_or("").split(|c: char| !c.is_alphanumeric()).next().unwrap_or("")) } else if e.contains("send") && e.contains("failed") { "send-error".into() } else { "delivery".into() });
+            // a cancelled link-split send over a roomy channel is not the situation of KF-send-cancel-partial-delivery
+            let roomy_split = c.sizes.iter().enumerate().any(|(i, sz)| link_split(c, *sz) && roomy(c, *sz) && c.send_budgets[i % c.send_budgets.len()] != 255);
+            let suffix = if roomy_split { ":roomy-channel" } else { "" };
+            obs.signature = Some(format!("{}{suffix}", if e.starts_with("HANG") { if c.link.auto_accept && c.duo.sess_buf[rcv_side] < 32 { "hang:auto-accept-small-rcv-buffer".to_string() } else { "hang".to_string() } } else if e.contains("recv failed") { format!("recv-error:{}", e.rsplit(": ").next().unwrap_or("").split(|c: char| !c.is_alphanumeric()).next().unwrap_or("")) } else if e.contains("send") && e.contains("failed") { "send-error".to_string() } else { "delivery".to_string() }));
             Err(e)
         }
         Err(p) => {
